@@ -36,4 +36,35 @@ theorem c03_gen_recvFrame_size_test (max : Nat) (c c1 : Segs) (hdr : List Nat)
 theorem c03_gen_limit_boundary (max : Nat) :
     Gen.C03.receiveRawProd_tooBig max max = false ∧ Gen.C03.receiveRawProd_tooBig (max + 1) max = true := by
   simp [Gen.C03.receiveRawProd_tooBig]
+
+/-! ### the type registry (`encoding.go` `typeRegistry.get` / `put`, translated as functions) -/
+
+theorem lookup_eq_find (r : Registry) (id : List Nat) :
+    List.lookup id r = (r.find? (fun e => e.1 == id)).map (·.2) := by
+  induction r with
+  | nil => rfl
+  | cons e r ih =>
+    obtain ⟨k, t⟩ := e
+    by_cases h : id = k
+    · subst h; simp [List.lookup, List.find?]
+    · have h1 : (id == k) = false := by simp [h]
+      have h2 : (k == id) = false := by simp [Ne.symm h]
+      simp [List.lookup, List.find?, h1, h2, ih]
+
+/-- **the registry of the model is the translated one**: on the table `newTypeRegistry` makes (a non-nil map),
+`registry.get` as translated from the source returns the model's `Registry.get` (with Go's comma-ok pair: the zero
+type and `false` for an unknown id), and `registry.put` is the model's `Registry.put` — the latest registration of
+an id is the one found (`c03_registry_last_wins` is about exactly this table) and `put` never panics.
+(Falsified by: a `put` that keeps the first registration, a `get` on another table or key.) -/
+theorem c03_gen_registry (r : Registry) (id : List Nat) (t : GoType) :
+    Gen.C03.typeRegistry_get ⟨some r⟩ id = ((r.get id).getD ⟨[], 0⟩, (r.get id).isSome) ∧
+    Gen.C03.typeRegistry_put ⟨some r⟩ id t = some ⟨some (r.put id t)⟩ := by
+  refine ⟨?_, rfl⟩
+  simp only [Gen.C03.typeRegistry_get, Gen.Rt.Map.find, Option.getD_some, Registry.get, lookup_eq_find]
+
+/-- … and therefore a registration followed by a look-up of the same id finds the type just registered, whatever was
+registered before — on the translated functions -/
+theorem c03_gen_put_get (r : Registry) (id : List Nat) (t : GoType) :
+    (Gen.C03.typeRegistry_put ⟨some r⟩ id t).map (fun tr => Gen.C03.typeRegistry_get tr id) = some (t, true) := by
+  simp [Gen.C03.typeRegistry_put, Gen.Rt.Map.insert?, Gen.C03.typeRegistry_get, Gen.Rt.Map.find]
 end C03
